@@ -1,4 +1,4 @@
-import sys; sys.path.insert(0,'/tmp/fixes'); from edit import rep
+import sys; sys.path.insert(0,'/verif/tools'); from edit import rep
 rep('segno/helpers.py', """            data.append(f'{delim}{key}={quote(val.encode("utf-8"))}')
         delim = '&'""", """            data.append(f'{delim}{key}={quote(val.encode("utf-8"))}')
             delim = '&'""")
